@@ -641,3 +641,102 @@ def m_to_tokens(I, st, fr, args, path, gargs, t):
     v = deref(I, st, args[0])
     st.note(('tok', 'lit', pfreeze(st.norm(v.p)), v.ty, st.itv(v)))
     return UNIT
+
+
+# ----------------------------------------------------------------------------- byte slices (the parser): only the length is tracked; unsafe preconditions are obligations
+class PtrVal:
+    __slots__ = ('slice',)
+
+    def __init__(self, s):
+        self.slice = s
+
+    def __repr__(self):
+        return 'Ptr(%r)' % (self.slice,)
+
+
+def _slice(I, st, v):
+    v = deref(I, st, v)
+    if not isinstance(v, SliceVal):
+        raise Stop('expected a slice, found %r' % (v,))
+    return v
+
+
+@model(r'core::str::<impl core::convert::AsRef<\[u8\]> for str>::as_ref|core::str::<impl str>::as_bytes|<str as core::convert::AsRef<\[u8\]>>::as_ref')
+def m_str_as_bytes(I, st, fr, args, path, gargs, t):
+    s = _slice(I, st, args[0])
+    return SliceVal(s.len, 'bytes')
+
+
+@model(r'core::slice::<impl \[T\]>::len|core::str::<impl str>::len')
+def m_slice_len(I, st, fr, args, path, gargs, t):
+    return _slice(I, st, args[0]).len
+
+
+@model(r'core::slice::<impl \[T\]>::is_empty|core::str::<impl str>::is_empty')
+def m_slice_is_empty(I, st, fr, args, path, gargs, t):
+    ln = _slice(I, st, args[0]).len
+    return I.compare(st, 'Eq', ln, K(0, 'usize'))
+
+
+def _fresh_byte_ref(I, st):
+    from .absint import Frame
+    b = st.fresh('u8', 0, 255, 'byte')
+    key = ('byte', len(st.pframes), id(b))
+    st.pframes[key] = Frame(None, None, {0: b})
+    return Ref(key, 0, ())
+
+
+@model(r'core::slice::<impl \[T\]>::(first|last)')
+def m_slice_first(I, st, fr, args, path, gargs, t):
+    ln = _slice(I, st, args[0]).len
+    idx = st.decide(ln.p, [ZERO, POS | NEG])
+    if idx == 0:
+        return none()
+    return some(_fresh_byte_ref(I, st))
+
+
+@model(r'core::slice::<impl \[T\]>::get_unchecked')
+def m_get_unchecked(I, st, fr, args, path, gargs, t):
+    s = _slice(I, st, args[0])
+    r = args[1]
+    if not (isinstance(r, Agg) and r.kind.endswith('RangeFrom') and len(r.fields) == 1):
+        raise Stop('get_unchecked with %r' % (r,))
+    n = r.fields[0]
+    d = padd(s.len.p, n.p, -1)
+    if not st.sign(d) <= NONNEG:
+        raise PanicExc('UB', {'fn': path, 'what': 'get_unchecked(n..) requires n <= len; not provable here (len - n sign %s)' % sorted(st.sign(d))})
+    return SliceVal(I.mk(st, 'usize', d, 0, None), s.tag)
+
+
+@model(r'core::slice::<impl \[T\]>::as_ptr')
+def m_as_ptr(I, st, fr, args, path, gargs, t):
+    return PtrVal(_slice(I, st, args[0]))
+
+
+@model(r'core::ptr::read_unaligned|core::ptr::const_ptr::<impl \*const T>::read_unaligned')
+def m_read_unaligned(I, st, fr, args, path, gargs, t):
+    p = args[0]
+    ty = gargs[0] if gargs else 'u64'
+    size = {'u8': 1, 'u16': 2, 'u32': 4, 'u64': 8, 'u128': 16}.get(ty)
+    if not isinstance(p, PtrVal) or size is None:
+        raise Stop('read_unaligned(%r) of %s' % (p, ty))
+    d = padd(p.slice.len.p, pconst(size), -1)
+    if not st.sign(d) <= NONNEG:
+        raise PanicExc('UB', {'fn': path, 'what': 'read of %d bytes requires len >= %d; not provable here' % (size, size)})
+    return st.fresh(ty, tag='rd')
+
+
+@model(r'<core::option::Option<T> as core::cmp::PartialEq>::(eq|ne)')
+def m_option_eq(I, st, fr, args, path, gargs, t):
+    a, b = deref(I, st, args[0]), deref(I, st, args[1])
+    neg = path.endswith('::ne')
+    if not (isinstance(a, Agg) and isinstance(b, Agg)):
+        raise Stop('Option eq on %r %r' % (a, b))
+    if a.variant != b.variant:
+        return K(int(neg), 'bool')
+    if a.variant == 0:
+        return K(int(not neg), 'bool')
+    x, y = deref(I, st, a.fields[0]), deref(I, st, b.fields[0])
+    if isinstance(x, Int) and isinstance(y, Int):
+        return I.compare(st, 'Ne' if neg else 'Eq', x, y)
+    raise Stop('Option eq payload %r %r' % (x, y))
